@@ -238,6 +238,8 @@ def run(tier, seed):
         seen = set()
         keep = []
         for c in cfgs:
+            if c.get('narrow'):
+                continue
             if c['backend'] in seen and c['values'] != (None, [1, {'x': 2.5}]):
                 continue
             seen.add(c['backend'])
